@@ -107,6 +107,20 @@ CHECKS += [
      "note": COMMON_NOTE + " Not attempted: statistical hiding against h evaluation queries (probabilistic statement, DESIGN.md section 6). Sonic, "
              "IPA, PST13 and Hyrax blinding shapes are observed on the implementation (supporting search), not yet modelled."},
 ]
+CHECKS += [
+    {"property_id": "C08",
+     "text": "Coq theorems: the commitment the code computes (skip low-order zeros, MSM over the rest of the key) is the naive multi-scalar sum over the "
+             "key for every list of key elements; MSM is additive and scales; commit(a*p+a'*q) = a*commit(p)+a'*commit(q) under any window of the "
+             "published powers, for Marlin's plain and shifted (degree-bound) parts alike; the zero polynomial maps to the identity; high-order zero "
+             "coefficients are invisible. Correspondence: Marlin/KZG10 commitments against [model exponent]*generator; implementation-level for "
+             "Sonic, IPA, PST13: additivity, zero, representation independence (permuted / split terms), determinism; Hyrax: every row commitment "
+             "recomputed as a naive Pedersen sum with the layout M[row][col] = evals[col*dim+row]; Ligero (uni/multilinear) and Brakedown: Merkle "
+             "root and metadata recomputed independently (row-major matrix, public encoder, Blake2s column hashes, default-leaf padding, "
+             "ark-crypto-primitives MerkleTree), equal/different polynomials give equal/different roots.",
+     "note": COMMON_NOTE + " The hash-based half and the Sonic/IPA/PST13/Hyrax halves are implementation-level recomputations (supporting search, not "
+             "proof) until those schemes are modelled; 'different polynomials give different roots' rests on hash collision resistance and code "
+             "distance, which are not proved."},
+]
 _PENDING = "check not built yet in this round (model and correspondence under construction; see DESIGN.md section 7)"
 _CLAIMED = {c["property_id"] for c in CHECKS}
 NOT_APPLICABLE = [{"property_id": "C%02d" % i, "reason": _PENDING} for i in range(1, 20) if "C%02d" % i not in _CLAIMED]
